@@ -110,6 +110,17 @@ pub fn history(rec: &mut Recorder, inp: &Input, arm: Arm, bs: usize, k_next: Opt
     let m = inp.pssm.len();
     let pssm = build_pssm::<A>(&inp.pssm);
     let mut seq = build_seq::<A, U32>(&inp.ranks, 0);
+    // every third scanner works on a sequence that was already configured for one or two SHORTER motifs
+    // (the way one striped sequence is scanned with several motifs), every seventh for a longer one
+    let hsel = inp.ranks.len() + m + bs;
+    if hsel % 3 == 0 && m >= 3 {
+        seq.configure_wrap(1 + hsel % (m - 2));
+        if hsel % 2 == 0 { seq.configure_wrap(m - 2); }
+        rec.class("sequence_previously_configured_for_shorter_motif");
+    } else if hsel % 7 == 0 {
+        seq.configure_wrap(m + 3);
+        rec.class("sequence_previously_configured_for_longer_motif");
+    }
     seq.configure(&pssm);
     let thr = ungrid(inp.thr, GS);
     let mut buffer = StripedScores::<f32, U32>::empty();
@@ -239,9 +250,43 @@ fn many_pending(rec: &mut Recorder, r: &mut impl Rng, thorough: bool) {
     }
 }
 
+/// Long motifs whose near-consensus words also saturate the 8-bit score: several near-consensus windows and one exact
+/// consensus (the true maximum) in different blocks; max() must still return the exact consensus.
+fn saturated_near_ties(rec: &mut Recorder, r: &mut impl Rng, thorough: bool) {
+    let n = if thorough { 120 } else { 40 };
+    for it in 0..n {
+        let m = r.gen_range(12..=20);
+        // every row: best symbol v, second best v - 1 (one grid step), the others far below
+        let pssm: Vec<Vec<i64>> = (0..m).map(|_| {
+            let best = r.gen_range(0..4); let mut second = r.gen_range(0..4); if second == best { second = (best + 1) % 4; }
+            let v = r.gen_range(4..=8);
+            let mut row = vec![-30i64; 4]; row[best] = v; row[second] = v - 1; row.push(NINF); row
+        }).collect();
+        let cons: Vec<usize> = pssm.iter().map(|row| row[..4].iter().enumerate().max_by_key(|x| *x.1).unwrap().0).collect();
+        let second: Vec<usize> = pssm.iter().map(|row| row[..4].iter().enumerate().filter(|x| *x.1 > -30).min_by_key(|x| *x.1).unwrap().0).collect();
+        let l = r.gen_range(10 * m..20 * m + 200);
+        let mut ranks = random_ranks::<A>(r, l, 0.0);
+        let slots = l / (m + 1);
+        let exact = r.gen_range(0..slots);
+        for sidx in 0..slots {
+            if sidx != exact && !r.gen_bool(0.5) { continue; }
+            let p = sidx * (m + 1);
+            let mut w = cons.clone();
+            if sidx != exact { for _ in 0..r.gen_range(1..=2) { let j = r.gen_range(0..m); w[j] = second[j]; } }
+            ranks[p..p + m].copy_from_slice(&w);
+        }
+        let thr = if it % 2 == 0 { 0 } else { -40 };
+        let inp = Input { ranks, pssm, thr, thr_kind: "low" };
+        let bs = [1usize, 2, 3, 5][it % 4];
+        history(rec, &inp, Arm::Avx2, bs, Some(0), false, "max_saturated_near_ties");
+        if it % 3 == 0 { history(rec, &inp, Arm::Avx2, 256, Some(r.gen_range(0..3)), false, "max_saturated_near_ties"); }
+    }
+}
+
 pub fn record_c03(rec: &mut Recorder, seed: u64, thorough: bool) {
     let mut r = rng(seed, 3);
     many_pending(rec, &mut r, thorough);
+    saturated_near_ties(rec, &mut r, thorough);
     let mut kind = 0;
     for (l, m, bs) in shapes(thorough, &mut r).into_iter().chain(big_shapes(thorough, &mut r)) {
         kind += 1;
